@@ -77,6 +77,8 @@ G12sBad(r) ==
            ELSE x.rc # 0
   IN IF r.rcStd # 0 THEN {0}
      ELSE Part(1, genOk) \cup Part(2, signOk) \cup Part(3, verOk)
+          \* the same standard set in an object whose unused octets are FF is still a valid set (g12s.h)
+          \cup Part(4, Has(r, "rcValDirty") => r.rcValDirty = 0)
           \cup UNION {Part(10 + i, altOk(i)) : i \in 1..Len(r.alts)}
 
 \* ------------------------------------------------------------------ bign96
